@@ -61,8 +61,11 @@ def mk(tree, owned, oplist, mirror_=False, budget=None, tag=""):
             pre += bound_pre(cnames, 0, 4)
     label = "+".join(nm + ("" if not o else "(" + ",".join("%s=%s" % kv for kv in sorted(o.items())) + ")") for nm, o in oplist)
     tname = str(tree).replace(" ", "")
-    return Ob("%s%s/%s/%s" % (tag, tname, "owned" if owned else "free", label), "history",
-              dict(tree=tree, owned=owned, ops=[[n_, o] for n_, o in oplist], depth=d, mirror=mirror_), allp, pre, budget=budget)
+    ob = Ob("%s%s/%s/%s" % (tag, tname, "owned" if owned else "free", label), "history",
+            dict(tree=tree, owned=owned, ops=[[n_, o] for n_, o in oplist], depth=d, mirror=mirror_), allp, pre, budget=budget)
+    if tree not in (0, []):
+        ob.pin = tree_pin(tree, ns)[0]
+    return ob
 
 
 def single_ops(d, n_top, tier):
